@@ -52,6 +52,12 @@ CHECKS = {
  "C17": ("Timers.tla models the timer map, requester operations and per-timer goroutines (wait/select/emit/cleanup); TLC explores all interleavings over ids and timer generations, checks CancelledNeverFires, AtMostOnce, PendingSet, IdFree on the shape that mirrors the code, and exports complete behaviours as gate schedules; both real implementations are driven (mcrew by an overlay driver inside cmd/mcrew, sio through a real crew's timers machine) with the verif hooks as gates, with requests issued from inside the firing handler, free-running stress, restart from the reported store (sio) and the race detector as a sensor; TLC (Trace_Timers) searches a linearization of every recorded history against the timer lifecycle of TimersProp.",
          "8.C17", "one id and two timer generations in the gated schedules (<=9 steps), two ids in stress; Go's select cannot be gated (repetition instead); wall-clock tolerances: 30 ms short delay, final snapshot >=100 ms after the last request; sio requests have no reply, so acceptance is read from the timers machine's error binding (named deviations SioMakeOnPendingCancels, SioRequestIgnored); one open known finding (sio data races)",
          "implementation-shaped TLA+ model explored by TLC -> gate schedules replayed on both timer implementations -> TLC linearizability trace judge (TimersProp)"),
+ "C10": ("Interp.tla models one runtime per execution with a pooled-runtime negative control that TLC must refute; the real interpreter runs sequences of polluting scripts (globals, prototypes, JSON/Object functions, environment members, nested bindings and props) followed by and concurrent with probe scripts on shared compiled programs; TLC judges probes pristine (equal to a solo run) and the caller's bindings/props unchanged.",
+         "8.C10", "eight polluter shapes, 1-3 per case, 8-16 concurrent goroutines; -race build as a sensor in the thorough tier",
+         "TLA+ isolation model (Interp.tla, negative control refuted by TLC) + recorded polluter/probe executions judged by TLC"),
+ "C11": ("ExecTime.tla models VM, watcher goroutine and context with fairness (Prompt, NoLeak as temporal properties; 'no watcher' and 'no cancel()' negative controls must be refuted); the real interpreter runs looping scripts under deadlines from 0 to 300 ms, cancellation at arbitrary moments, 1-64 concurrent executions, directly and through Spec.Walk, and terminating scripts under contexts that outlive the call; TLC judges promptness within an explicit slack, the timeout error and its routing to the error node, and goroutine counts.",
+         "8.C11", "wall-clock: slack 500 ms (<=4 concurrent) / 2.5 s (<=64) against a 6 s watchdog; goroutine leak = count not back within 400 ms",
+         "TLA+ explicit watcher/interrupt model with liveness (ExecTime.tla) + timed traces of the real interpreter judged by TLC"),
 }
 def main():
     checks = []
